@@ -827,8 +827,24 @@ def collect(batches, out, failures, stats, contract_of):
                                                  violated=[f"{k}:{ob}" for k, v in per.items() for ob, _ in v.get("fail", [])]))
 
 
+def _axis_aligned(pose):
+    R = np.asarray(pose, dtype=float)[:3, :3]
+    return bool(np.all((np.abs(R) < 1e-12) | (np.abs(np.abs(R) - 1.0) < 1e-12)))
+
+
 def contract_name(nm, sc):
-    return f"{nm}[{sc['A']['kind']},{sc['B']['kind']}]" if sc is not None else nm
+    """pair of collider kinds, plus the rotation class for EPA (its known capacity-assertion finding on polytope pairs is pinned to
+    generally rotated pairs; axis-aligned pairs stay sensitive)"""
+    if sc is None:
+        return nm
+    base = f"{nm}[{sc['A']['kind']},{sc['B']['kind']}"
+    if nm == "epa.epa":
+        try:
+            aa = _axis_aligned(sc["A"]["pose"]) and _axis_aligned(sc["B"]["pose"])
+        except Exception:
+            aa = False
+        base += ";axis_aligned" if aa else ";rotated"
+    return base + "]"
 
 
 def replay(js):
